@@ -165,6 +165,14 @@ func runHoverScenario(c *Ctx, scen map[string]any) *hoverRun {
 	for _, ev := range asMaps(scen["events"]) {
 		i := int(c20num(ev["f"]))
 		text, _ := ev["text"].(string)
+		if k, _ := ev["k"].(string); k == "save" {
+			// the editor writes the buffer to disk and says so
+			if err := os.WriteFile(filepath.Join(dir, "w", run.names[i]), []byte(text), 0o644); err != nil {
+				panic(err)
+			}
+			srv.DidSave(ctx, &protocol.DidSaveTextDocumentParams{TextDocument: protocol.TextDocumentIdentifier{URI: run.uris[i]}})
+			continue
+		}
 		srv.DidChange(ctx, &protocol.DidChangeTextDocumentParams{
 			TextDocument:   protocol.VersionedTextDocumentIdentifier{TextDocumentIdentifier: protocol.TextDocumentIdentifier{URI: run.uris[i]}, Version: 2},
 			ContentChanges: []protocol.TextDocumentContentChangeEvent{{Text: text}},
@@ -259,7 +267,7 @@ func (r *hoverRun) line(req int, qs []any, gt any) map[string]any {
 	// `wf`: the header-field invariant the payee theorem assumes of parser output (TxWF in
 	// HL/Props/C20Hover.lean); the driver evaluates it on every tree of this line, so a parser
 	// that stops guaranteeing it shows up as a correspondence break.
-	return map[string]any{"scen": r.scen, "gt": gt, "req": req, "qs": qs, "docj": journalJ(docj),
+	return map[string]any{"scen": r.scen, "gt": gt, "req": req, "qs": qs, "docj": journalJ(docj), "doct": doc,
 		"wsres": wsres, "wsroot": wsroot, "dpath": dpath, "res": res, "bufs": bufs,
 		"impl": J{"figs": impl, "wf": true}}
 }
@@ -1072,6 +1080,15 @@ func relInclude(from, to string) string {
 	return rel
 }
 
+func indexOf(l []int, x int) int {
+	for i, v := range l {
+		if v == x {
+			return i
+		}
+	}
+	return 0
+}
+
 func genC20Hover(c *Ctx) {
 	n := c.N(350, 4000)
 	for s := 0; s < n; s++ {
@@ -1176,6 +1193,33 @@ func hvScenario(c *Ctx) {
 			// same content again: publishDiagnostics re-resolves the includes with a warm cache
 			events = append(events, J{"k": "change", "f": i, "text": files[i].text()})
 			c.Count("event.republish")
+		}
+	}
+	if ws && len(events) == 0 && len(adj[0]) > 0 && r.IntN(3) == 0 {
+		// an unsaved edit in an included file, then its include line is cut from the root
+		// journal and pasted back (both saved), then the included file is saved: in the end
+		// buffers, disk and include tree agree, and the figures must be those of that state
+		x := adj[0][r.IntN(len(adj[0]))]
+		if x != 0 {
+			rootText := files[0].text()
+			var cut []string
+			for _, l := range strings.Split(rootText, "\n") {
+				if strings.HasPrefix(l, "include ") && strings.HasSuffix(l, incPaths[0][indexOf(adj[0], x)]) {
+					continue
+				}
+				cut = append(cut, l)
+			}
+			cutText := strings.Join(cut, "\n")
+			if cutText != rootText {
+				files[x] = gen(x)
+				y := files[x].text()
+				events = append(events,
+					J{"k": "change", "f": x, "text": y},
+					J{"k": "change", "f": 0, "text": cutText}, J{"k": "save", "f": 0, "text": cutText},
+					J{"k": "change", "f": 0, "text": rootText}, J{"k": "save", "f": 0, "text": rootText},
+					J{"k": "save", "f": x, "text": y})
+				c.Count("event.unsaved-cut-paste-save")
+			}
 		}
 	}
 	gtFiles := []any{}
